@@ -647,6 +647,35 @@ pub fn c08(ctx: &mut Ctx) {
                 ctx.violation(&format!("C08|protocol|{}|{kind}", p.split(':').next().unwrap()), &format!("{}: {p}", base.name), mk(ctx, &[fault], "message-position"));
             }
         }
+        // surplus trailing entries are not protocol messages: a proof that carries unused extra FRI
+        // layer descriptions / commitments / steps must produce exactly the same challenge history
+        {
+            let mut extra = Vec::new();
+            if n_inner >= 1 {
+                extra.push(Fault::Append { path: "config.fri.inner_layers".into(), value: None });
+                extra.push(Fault::Append { path: "unsent_commitment.fri.inner_layers".into(), value: Some(image::felt_hex(&rng.felt())) });
+                extra.push(Fault::Append { path: "config.fri.fri_step_sizes".into(), value: Some("0x1".into()) });
+            }
+            if let Some(img) = proofrun::apply_faults(&base.image, &extra) {
+                if let Some((sev, so)) = events_of(&base.layout, &img, base.security) {
+                    ctx.stats.evaluations += 1;
+                    ctx.stats.fired("surplus-entries");
+                    ctx.stats.state(format!("{}|surplus-entries|{}", base.layout, so.class()));
+                    if so.is_accept() && sev != ev {
+                        let pos = sev.iter().zip(ev.iter()).position(|(a, b)| a != b);
+                        ctx.violation("C08|protocol|surplus-entries-change-history", &format!("{}: unused trailing FRI entries change the transcript history at event {pos:?}", base.name), mk(ctx, &extra, "history"));
+                    } else if !so.is_accept() {
+                        // rejecting surplus entries is allowed (C02 only tolerates them); but the part of
+                        // the history that was produced must still be a prefix of the protocol's
+                        let upto = sev.len().min(ev.len());
+                        if sev[..upto] != ev[..upto] {
+                            let pos = sev.iter().zip(ev.iter()).position(|(a, b)| a != b);
+                            ctx.violation("C08|protocol|surplus-entries-change-history", &format!("{}: unused trailing FRI entries change the transcript history at event {pos:?} (run ended with {})", base.name, so.class()), mk(ctx, &extra, "history"));
+                        }
+                    }
+                }
+            }
+        }
         // later messages do not affect earlier challenges: change the nonce and a witness value
         let nonce = base.image["unsent_commitment"]["proof_of_work"]["nonce"].as_u64().unwrap();
         let fault = Fault::Set { path: "unsent_commitment.proof_of_work.nonce".into(), value: nonce.wrapping_add(1).to_string() };
